@@ -275,7 +275,7 @@ def run(ctx):
             check_pair(ctx, A, Bg, space, ("cls", i, j), light=light)
     ctx.exhaustive[space] = True
     # random pairs: relabelled copies, one-edit neighbours, planted sub-patterns, hcount/charge variants
-    n = 220 if ctx.quick else 5000
+    n = 700 if ctx.quick else 8000
     for t in range(n):
         if ctx.out_of_time(0.7):
             ctx.count("random_truncated_by_budget")
@@ -293,7 +293,7 @@ def run(ctx):
         check_pair(ctx, A, Bg, "random pairs", ("rnd", WG.describe(A), WG.describe(Bg)), light=(t % 2 == 0))
         ctx.count("random_pairs")
     # query histories on shared objects
-    n = 60 if ctx.quick else 1500
+    n = 250 if ctx.quick else 3000
     for t in range(n):
         if ctx.out_of_time():
             ctx.count("random_truncated_by_budget")
